@@ -56,6 +56,8 @@ class Builder:
         self.workdir = workdir
         self.lock = threading.Lock()
         self.done = {}
+        self.gen_dirs = []      # content-addressed directories of generated headers (added to the include path)
+        self.gen_cache = {}
 
     def cfg_dir(self, cfg):
         d = os.path.join(self.workdir, cfg)
@@ -107,27 +109,47 @@ class Builder:
                 self._langs = langdata.dump(self.workdir)
             return self._langs
 
+    def gen_file(self, name, writer):
+        """generated sources live in a content-addressed directory (.build/gen/<sha>/<name>): the same
+        content always has the same path, so the goto binaries that embed the path in their source
+        locations are reproducible and the verdict cache can be shared between runs"""
+        tmp = os.path.join(self.workdir, "%s.%d.tmp" % (name, threading.get_ident()))
+        writer(tmp)
+        d = os.path.join(BUILD_ROOT, "gen", file_sha(tmp)[:20])
+        os.makedirs(d, exist_ok=True)
+        path = os.path.join(d, name)
+        if os.path.exists(path):
+            os.unlink(tmp)
+        else:
+            os.replace(tmp, path)
+        with self.lock:
+            if d not in self.gen_dirs:
+                self.gen_dirs.append(d)
+        return path
+
     def flags_unit(self):
         from . import langdata
-        path = os.path.join(self.workdir, "gen_langflags.c")
-        if not os.path.exists(path):
-            tmp = path + ".%d.tmp" % threading.get_ident()
-            langdata.write_flags_unit(self.langs(), tmp)
-            os.replace(tmp, path)
+        with self.lock:
+            cached = self.gen_cache.get("langflags")
+        if cached:
+            return cached
+        path = self.gen_file("gen_langflags.c", lambda t: langdata.write_flags_unit(self.langs(), t))
+        with self.lock:
+            self.gen_cache["langflags"] = path
         return path
 
     def table_unit(self, lid):
         from . import langdata
-        path = os.path.join(self.workdir, "gen_lang_%s.c" % lid)
         with self.lock:
-            pass
-        if not os.path.exists(path):
-            L = [x for x in self.langs() if x["id"] == lid]
-            if not L:
-                raise BuildError("language %s is not registered in /repo (polyseed_get_lang)" % lid)
-            tmp = path + ".%d.tmp" % threading.get_ident()
-            langdata.write_table_unit(L[0], tmp)
-            os.replace(tmp, path)
+            cached = self.gen_cache.get("lang_" + lid)
+        if cached:
+            return cached
+        L = [x for x in self.langs() if x["id"] == lid]
+        if not L:
+            raise BuildError("language %s is not registered in /repo (polyseed_get_lang)" % lid)
+        path = self.gen_file("gen_lang_%s.c" % lid, lambda t: langdata.write_table_unit(L[0], t))
+        with self.lock:
+            self.gen_cache["lang_" + lid] = path
         return path
 
     # ---- C16: wipe obligations regenerated from the goto symbol tables -------
@@ -156,10 +178,11 @@ class Builder:
         """header with, per API function, the sizes of the automatic aggregates
         (arrays/structs) declared in it and in the library functions it runs --
         each must be wiped as a whole object through the injected memzero"""
-        path = os.path.join(self.cfg_dir(cfg), "c16_gen.h")
         with self.lock:
-            if os.path.exists(path):
-                return path
+            cached = self.gen_cache.get("c16_" + cfg)
+        if cached:
+            return cached
+        path = os.path.join(self.cfg_dir(cfg), "c16_gen.h")
         autos = {}
         listing = []
         for tu in ("polyseed", "lang", "gf", "storage", "features", "dependency"):
@@ -231,16 +254,20 @@ class Builder:
                 listing.append((api, ents))
                 f.write("#define C16_N_%s %d\n" % (api, len(ents)))
                 f.write("#define C16_OBL_%s { %s }\n" % (api, ", ".join("sizeof(%s) /* %s */" % (c, n) for n, c in ents) if ents else "0"))
-        os.replace(path + ".tmp", path)
+        import shutil as _sh
+        final = self.gen_file("c16_gen.h", lambda t: _sh.copyfile(path + ".tmp", t))
+        os.unlink(path + ".tmp")
         self.c16_listing = listing
-        return path
+        with self.lock:
+            self.gen_cache["c16_" + cfg] = final
+        return final
 
     def harness_obj(self, cfg, src, defines, tag):
         out = os.path.join(self.cfg_dir(cfg), "h_" + tag + ".o")
         flags = ["-fsigned-char" if cfg[0] == "s" else "-funsigned-char"] + (["--big-endian"] if "b" in cfg else [])
         cmd = ["goto-cc", "-c", "-I" + REPO + "/include", "-iquote", REPO + "/src",
                "-I" + VERIF + "/spec", "-I" + VERIF + "/harness", "-I" + VERIF + "/stubs",
-               "-I" + VERIF + "/golden", "-I" + self.workdir, "-I" + self.cfg_dir(cfg),
+               "-I" + VERIF + "/golden"] + ["-I" + d for d in list(self.gen_dirs)] + [
                "-DPOLYSEED_STATIC", "-std=c11"] + flags + ["-D" + d for d in defines] + \
               [src, "-o", out]
         r = sh(cmd)
